@@ -83,9 +83,16 @@ func cmdCheck(args []string) {
 	}
 	prop := args[0]
 	tier := "quick"
-	for _, a := range args[1:] {
+	for i, a := range args[1:] {
 		if a == "--thorough" {
 			tier = "thorough"
+		}
+		if a == "--replay" {
+			if i+2 >= len(args) {
+				fmt.Fprintln(os.Stderr, "usage: gocv check <Cxx> --replay <replay file>")
+				os.Exit(2)
+			}
+			os.Exit(cmdReplayFile(prop, args[i+2]))
 		}
 	}
 	if os.Getenv("VERIF_TIER") == "thorough" {
@@ -389,3 +396,38 @@ func standardAssumptions() []string {
 }
 
 // tryReplay is implemented in replay.go
+
+
+// cmdReplayFile re-runs a recorded replay: the harness kept in the replay file is executed against /repo's current tree.
+// Exit 1 (and a VIOLATION line) when the recorded behaviour is still there, 0 when it is gone, 2 when the file holds no harness.
+func cmdReplayFile(prop, path string) int {
+	data, err := os.ReadFile(path)
+	if err != nil {
+		fmt.Fprintln(os.Stderr, "cannot read", path)
+		return 2
+	}
+	var rec map[string]interface{}
+	if json.Unmarshal(data, &rec) != nil {
+		fmt.Fprintln(os.Stderr, "not a replay file:", path)
+		return 2
+	}
+	fmt.Printf("obligation: %v\ncontract:   %v\nsolver:     %v (%v)\n", rec["obligation"], rec["contract_source"], rec["solver_result"], rec["solver"])
+	h, _ := rec["replay_harness"].(string)
+	dir, _ := rec["replay_package_dir"].(string)
+	if h == "" || dir == "" {
+		fmt.Println("this violation carries no executable replay (no-failing-input-found); the solver output is in the file; to re-decide it run: ./check", prop)
+		return 2
+	}
+	out, ran := runHarness(dir, h)
+	fmt.Print(out)
+	if !ran {
+		return 2
+	}
+	want, _ := rec["replay_expect"].(string)
+	if want != "" && strings.Contains(out, want) {
+		fmt.Printf("VIOLATION property=%s replay=%s\n", prop, path)
+		return 1
+	}
+	fmt.Println("the recorded behaviour is not reproduced on the current tree")
+	return 0
+}
